@@ -181,7 +181,7 @@ def conc_layout(ld,m,now_secs=None):
     return {'readme':ld.readme,'keys':list(ld.keys),'key_alias':{str(k):v for k,v in ld.key_alias.items()},'expires_secs':exp_s,'expires_nanos':exp_n,
             'steps':[{'name':s.name,'threshold':model_value(m,s.threshold.z()) if isinstance(s.threshold,Int) else s.threshold,'pubkeys':list(s.pubkeys),
                       'expected_materials':getattr(s,'exp_mat_json',[]),'expected_products':getattr(s,'exp_prod_json',[])} for s in ld.steps],
-            'inspect':[{'name':i.name,'run':i.run,'expected_materials':getattr(i,'exp_mat_json',[]),'expected_products':getattr(i,'exp_prod_json',[])} for i in ld.inspect]}
+            'inspect':[{'name':i.name,'run':(i.dyn_run(m) if hasattr(i,'dyn_run') else i.run),'expected_materials':getattr(i,'exp_mat_json',[]),'expected_products':getattr(i,'exp_prod_json',[])} for i in ld.inspect]}
 def conc_block(bd,m):
     d={'type':bd.kind,'sigs':[conc_sig(s,m) for s in bd.sigs]}
     if bd.kind=='link':
